@@ -31,6 +31,7 @@ type World struct {
 	Mints   []*MintNode
 	Wallets []*WalletNode
 	Dir     string
+	Rec     *inproc.Sink // every request / response between the wallets and the mints of this world
 }
 
 type MintNode struct {
@@ -45,7 +46,7 @@ func New(seed int64, fees []uint, mpp bool) (*World, error) {
 	worldSeq++
 	tag := fmt.Sprintf("w%d", worldSeq)
 	worldMu.Unlock()
-	w := &World{Tag: tag, LN: lnmodel.NewWorld(seed), T: inproc.Install(), Dir: core.TempDir("world")}
+	w := &World{Tag: tag, LN: lnmodel.NewWorld(seed), T: inproc.Install(), Dir: core.TempDir("world"), Rec: &inproc.Sink{}}
 	w.LN.AutoDeliver = false
 	for i, fee := range fees {
 		name := fmt.Sprintf("m%d", i)
@@ -56,6 +57,7 @@ func New(seed int64, fees []uint, mpp bool) (*World, error) {
 		host := fmt.Sprintf("%s.%s.verif", name, tag)
 		mn := &MintNode{Env: env, Host: host, URL: "http://" + host, w: w}
 		w.T.Register(host, env.Handler())
+		w.T.RegisterSink(host, w.Rec)
 		w.Mints = append(w.Mints, mn)
 	}
 	return w, nil
